@@ -1124,32 +1124,37 @@ class World:
         self._mark_bc_edit(bent, "view", ctx)
 
     # --------------------------------------------------------- op: value edits
+    def _apply_val_edit(self, v, a, shape):
+        how = a["how"]
+        if how == "assign":
+            v.value = self._val(a["val"], shape)
+        elif how == "slice":
+            sl = rslices(a["sl"], shape)
+            v.value[sl] = self._val(a["val"], v.value[sl].shape)
+        elif how == "slice2":
+            sl = rslices(a["sl"], shape)
+            sub = v.value[sl]
+            sl2 = rslices(a.get("sl2", []), sub.shape)
+            sub[sl2] = self._val(a["val"], sub[sl2].shape)
+        elif how == "imul":
+            v.value *= float(a["k"])
+        elif how == "update":
+            src = self.get(a["src"], "v")
+            v.update_value(src.obj)
+        elif how == "badshape":
+            v.value = np.full(tuple(s + 1 for s in shape) + (2,), 2.5)
+        else:
+            raise Skip("unknown how")
+
     def op_val_edit(self, a, op, ctx):
         vent = self.get(a["v"], "v")
         v = vent.obj
         how = a["how"]
         shape = tuple(int(x) for x in v.domain.dims)
+        if how == "slice2":
+            self.probes["edit:value-view-of-view"] += 1
         try:
-            if how == "assign":
-                v.value = self._val(a["val"], shape)
-            elif how == "slice":
-                sl = rslices(a["sl"], shape)
-                v.value[sl] = self._val(a["val"], v.value[sl].shape)
-            elif how == "slice2":
-                sl = rslices(a["sl"], shape)
-                sub = v.value[sl]
-                sl2 = rslices(a.get("sl2", []), sub.shape)
-                sub[sl2] = self._val(a["val"], sub[sl2].shape)
-                self.probes["edit:value-view-of-view"] += 1
-            elif how == "imul":
-                v.value *= float(a["k"])
-            elif how == "update":
-                src = self.get(a["src"], "v")
-                v.update_value(src.obj)
-            elif how == "badshape":
-                v.value = np.full(tuple(s + 1 for s in shape) + (2,), 2.5)
-            else:
-                raise Skip("unknown how")
+            self._apply_val_edit(v, a, shape)
         except Skip:
             raise
         except Exception as ex:
@@ -1158,12 +1163,37 @@ class World:
             self.stats["fault-fired:" + ctx.fault] += 1
             vent.meta["faulted_at"] = self.step
             vent.meta["fault_kind"] = ctx.fault
+            if how != "badshape":
+                self._valid_edit_raised(vent, a, shape, ex, ctx)
         vent.meta["last_val_edit"] = self.step
         vent.meta["last_val_kind"] = how
         if how == "update":
             vent.meta["ghost_trusted"] = False
+            src = self.ents.get(a.get("src"))
+            if src is not None and src.meta.get("bc") == vent.meta.get("bc"):
+                self.probes["edit:update_value-from-bc-sharer"] += 1
         ctx.written.add(vent.name)
         ctx.i3.append(vent.name)
+
+    def _valid_edit_raised(self, vent, a, shape, ex, ctx):
+        """A well-formed value edit raised.  Legitimate when a freshly constructed
+        variable with the same storage (values, dtype) rejects it as well (numpy's
+        casting rules on integer storage, operands on different meshes); otherwise
+        an earlier operation left this variable in a state that no longer accepts
+        supported edits (e.g. its storage was left read-only)."""
+        try:
+            tw = self.pf.CellVariable(vent.obj.domain, np.array(A.full_array(vent.obj), copy=True))
+            self._apply_val_edit(tw, a, shape)
+        except BaseException:
+            return
+        det = {"var": vent.name, "exc": repr(ex), "how": a["how"],
+               "created_kind": vent.meta.get("created_kind")}
+        # who left it like that?  operators / *eval never change their operands (C14);
+        # builders and solvers never modify what they are given (C15); and the edit
+        # history no longer equals a fresh start (C09)
+        self.flag("C14", "I2", "operand-left-unwritable/%s" % a["how"], det)
+        self.flag("C15", "I1", "val_edit:%s/raises-on-valid-edit" % a["how"], det)
+        self.flag("C09", "I3", "raises/valid-value-edit/%s" % a["how"], det)
 
     # ------------------------------------------------------------- op: apply
     def op_apply(self, a, op, ctx):
@@ -1572,7 +1602,11 @@ class World:
         ctx.derived.add(vent.name)
         ctx.i3.append(vent.name)
         if not exact(rhs, rhs_before):
-            self.flag("C15", "I1", "explicit/rhs/operand", {"var": vent.name})
+            # C15: solveExplicitPDE modifies nothing it is given; C12: in a multi-step
+            # loop with a time-independent RHS the next step is no longer old + dt*RHS
+            self.flag(("C15", "C12"), "I1" if self.prop != "C12" else "I6",
+                      "explicit/rhs/operand" if self.prop != "C12" else "explicit/rhs-modified",
+                      {"var": vent.name})
         if got != "ok":
             ctx.status = "raised:" + got
             self._note_consumer_fault(vent, ctx)
